@@ -340,6 +340,8 @@ pub struct TaskSt {
     pub wait_join: Option<TaskId>,
     pub deadline: Option<Ns>,
     pub panic: Option<String>,
+    /// kernel thread id of the thread that runs this task (for the watchdog)
+    pub os_tid: i64,
     cv: Arc<Condvar>,
 }
 
@@ -1008,17 +1010,48 @@ impl World {
         g.stats.handoffs += 1;
         let cv = g.tasks[t as usize].cv.clone();
         cv.notify_one();
+        // Watchdog. A released thread normally reaches its next scheduling point within microseconds.
+        // It is declared stuck only on evidence that does not depend on how loaded the machine is:
+        //  (a) blocked: for 60 s of real time every sample (one per 2 s) finds it sleeping in the kernel
+        //      (state S or D) and it has used less than a second of CPU: a system call the simulator does
+        //      not own (open of a FIFO, a real sleep, a real socket);
+        //  (b) spinning: it has burnt 30 CPU-seconds since it was released;
+        //  (c) half an hour of real time whatever the reason.
+        // A thread that is merely starved of CPU is runnable (state R) and matches neither (a) nor (b).
         let t0 = std::time::Instant::now();
+        let tid = g.tasks[t as usize].os_tid;
+        let cpu0 = thread_cpu_and_state(tid).map(|x| x.0).unwrap_or(0.0);
+        let mut blocked_since: Option<std::time::Instant> = None;
         while g.running.is_some() {
             let (g2, to) = self.driver_cv.wait_timeout(g, Duration::from_secs(2)).unwrap_or_else(|e| e.into_inner());
             g = g2;
-            if to.timed_out() && g.running.is_some() && t0.elapsed() > Duration::from_secs(stuck_limit_s()) {
-                // The released thread did not come back to a scheduling point: it is blocked in a real
-                // system call or spinning. It cannot be unwound, so the process reports and leaves
-                // (exit 71); the parent turns that into a `task_stuck` finding with its own replay file.
+            if !(to.timed_out() && g.running.is_some()) {
+                continue;
+            }
+            let tid = g.tasks[t as usize].os_tid;
+            let (cpu, state) = thread_cpu_and_state(tid).unwrap_or((cpu0, '?'));
+            let used = cpu - cpu0;
+            if state == 'S' || state == 'D' {
+                blocked_since.get_or_insert_with(std::time::Instant::now);
+            } else {
+                blocked_since = None;
+            }
+            let limit = stuck_limit_s();
+            let why = if blocked_since.map_or(false, |b| b.elapsed() > Duration::from_secs(limit)) && used < 1.0 {
+                Some("blocked in a system call outside the simulation")
+            } else if used > (limit / 2) as f64 {
+                Some("spinning without reaching a scheduling point")
+            } else if t0.elapsed() > Duration::from_secs(30 * limit) {
+                Some("not back after half an hour")
+            } else {
+                None
+            };
+            if let Some(why) = why {
+                // The thread cannot be unwound, so the process reports and leaves (exit 71); the parent
+                // turns that into a `task_stuck` finding with its own replay file.
                 let label = format!("task {t} (started by {:?})", g.tasks[t as usize].parent);
                 let last: Vec<String> = g.trace.as_ref().map(|tr| tr.iter().rev().take(6).rev().cloned().collect()).unwrap_or_default();
-                eprintln!("task '{label}' did not return to the simulator within {} s of real time (blocked outside the simulation or spinning); last events: {last:?}", stuck_limit_s());
+                eprintln!("{label} is stuck: {why} ({:.0} s of real time, {used:.1} s of CPU, kernel state {state}); last events: {last:?}", t0.elapsed().as_secs_f64());
                 std::process::exit(71);
             }
         }
@@ -1209,6 +1242,7 @@ impl Backend for World {
             wait_join: None,
             deadline: None,
             panic: None,
+            os_tid: 0,
             cv: Arc::new(Condvar::new()),
         });
         g.live_threads += 1;
@@ -1222,6 +1256,7 @@ impl Backend for World {
     fn task_begin(&self, t: TaskId) {
         MY_TASK.with(|c| c.set(Some(t)));
         let mut g = self.lock();
+        g.tasks[t as usize].os_tid = os_tid();
         let cv = g.tasks[t as usize].cv.clone();
         loop {
             if g.shutdown {
@@ -1640,4 +1675,23 @@ pub fn clear_fsize_limit() {
 /// declared stuck. One step of real code takes microseconds to (for gigabyte windows) a second or two.
 pub fn stuck_limit_s() -> u64 {
     std::env::var("VERIF_STUCK_S").ok().and_then(|v| v.parse().ok()).unwrap_or(60)
+}
+
+pub fn os_tid() -> i64 {
+    extern "C" {
+        fn syscall(num: i64, ...) -> i64;
+    }
+    unsafe { syscall(186) } // SYS_gettid on x86_64
+}
+
+/// (user + system CPU seconds, scheduler state letter) of one thread of this process.
+fn thread_cpu_and_state(tid: i64) -> Option<(f64, char)> {
+    let s = std::fs::read_to_string(format!("/proc/self/task/{tid}/stat")).ok()?;
+    // the command name is in parentheses and may hold spaces: fields are counted after the last ')'
+    let rest = &s[s.rfind(')')? + 1..];
+    let f: Vec<&str> = rest.split_whitespace().collect();
+    let state = f.first()?.chars().next()?;
+    let utime: f64 = f.get(11)?.parse().ok()?;
+    let stime: f64 = f.get(12)?.parse().ok()?;
+    Some(((utime + stime) / 100.0, state))
 }
